@@ -284,7 +284,87 @@ def r17_6(prog, rep):
     rep.count("catalogue_evaluations", n)
 
 
+def _consts_in(term) -> set:
+    out = set()
+    for s in T.walk(term):
+        if s[0] == "const" and isinstance(s[1], (str, int, bool, type(None))) or (s[0] == "const" and s[1] is Ellipsis):
+            out.add(s[1])
+    return out
+
+
+def r17_8(prog, rep):
+    """Special-form predicates: the facts each answer must be computed from (resolved callees and constants), whatever the spelling."""
+    insp = prog.module(C.INSP)
+
+    def rets(name):
+        f = prog.functions.get(f"{C.INSP}.{name}")
+        if f is None:
+            return None, []
+        return f, [r for _, r in P.returns(P.paths_of(prog, f))] + [g for p in P.paths_of(prog, f) for g, _ in p.guards()]
+
+    def has_call(terms, *names):
+        return any(T.contains(t0, lambda s: T.is_call_to(s, *names)) for t0 in terms)
+
+    def has_ref(terms, *names):
+        return any(T.contains(t0, lambda s: s[0] == "ref" and s[1] in names) for t0 in terms)
+
+    checks = {
+        "isuniontype": lambda ts: {"Union", "UnionType"} <= set().union(*[_consts_in(t0) for t0 in ts]) and has_call(ts, f"{C.INSP}.origin") or (has_ref(ts, "typing.Union") and has_ref(ts, "types.UnionType")),
+        "isliteral": lambda ts: has_ref(ts, "typing.Literal") and has_call(ts, f"{C.INSP}.origin", "typing.get_origin"),
+        "isforwardref": lambda ts: has_ref(ts, "typing.ForwardRef"),
+        "isfinal": lambda ts: has_ref(ts, "typing.Final") and has_call(ts, f"{C.INSP}.origin", "typing.get_origin"),
+        "isclassvartype": lambda ts: has_ref(ts, "typing.ClassVar"),
+        "isfixedtupletype": lambda ts: has_ref(ts, "builtins.tuple") and any(Ellipsis in _consts_in(t0) for t0 in ts) and has_call(ts, f"{C.INSP}.args", "typing.get_args"),
+        "isstructuredtype": lambda ts: has_call(ts, f"{C.INSP}.isfixedtupletype") and has_call(ts, f"{C.INSP}.isnamedtuple") and has_call(ts, f"{C.INSP}.istypeddict") and has_call(ts, f"{C.INSP}.isstdlibsubtype") and has_call(ts, f"{C.INSP}.isuniontype") and has_call(ts, f"{C.INSP}.isliteral"),
+        "isstdlibtype": lambda ts: has_ref(ts, f"{C.INSP}.STDLIB_TYPES") and has_call(ts, f"{C.INSP}.resolve_supertype") and has_call(ts, "builtins.all"),
+        "isbuiltintype": lambda ts: has_ref(ts, f"{C.INSP}.BUILTIN_TYPES") and has_call(ts, f"{C.INSP}.resolve_supertype"),
+        "isunresolvable": lambda ts: has_ref(ts, f"{C.INSP}._UNRESOLVABLE"),
+        "ishashable": lambda ts: any(T.contains(t0, lambda s: s[0] == "cmp" and s[1] == "isnot" and s[3] == ("const", None)) for t0 in ts),
+        "isproperty": lambda ts: has_ref(ts, "builtins.property") and has_ref(ts, "functools.cached_property"),
+        "isdescriptor": lambda ts: has_ref(ts, f"{C.INSP}._DESCRIPTOR_METHODS") and has_call(ts, "builtins.dir"),
+        "istypealiastype": lambda ts: has_ref(ts, "typing.TypeAliasType") and has_call(ts, "builtins.isinstance"),
+        "iscallable": lambda ts: has_ref(ts, "typing.Callable") and has_call(ts, "inspect.isroutine"),
+    }
+    why = {
+        "isuniontype": "must recognise both typing.Union and types.UnionType (X | Y) through origin()",
+        "isliteral": "must test the origin against typing.Literal",
+        "isforwardref": "must test for typing.ForwardRef",
+        "isfinal": "must test the origin against Final",
+        "isclassvartype": "must test for typing.ClassVar",
+        "isfixedtupletype": "tuple origin, non-empty args, last argument not Ellipsis",
+        "isstructuredtype": "fixed tuple ∨ namedtuple ∨ typed dict ∨ (not stdlib ∧ not union ∧ not literal)",
+        "isstdlibtype": "membership in STDLIB_TYPES after NewType resolution; unions need all members",
+        "isbuiltintype": "membership in BUILTIN_TYPES after NewType resolution",
+        "isunresolvable": "membership in _UNRESOLVABLE",
+        "ishashable": "__hash__ is not None",
+        "isproperty": "property or functools.cached_property",
+        "isdescriptor": "any of the descriptor protocol methods among dir(obj)",
+        "istypealiastype": "isinstance against TypeAliasType",
+        "iscallable": "routine, typing.Callable or a collections.abc.Callable subclass",
+    }
+    for name, fn in checks.items():
+        f, ts = rets(name)
+        if f is None:
+            rep.undecided("R17.8", f"{C.INSP}.{name}", insp.relpath, "predicate not found")
+            continue
+        rep.check(bool(fn(ts)), "R17.8", f.qualname, f.loc, f"computed from the facts its contract names ({why[name]})", f"no longer computed from the facts its contract names: {why[name]}", detail="facts")
+    # _UNRESOLVABLE content
+    un = P.module_term(prog, insp, "_UNRESOLVABLE")
+    names = {T.refname(x) for x in un[1]} if un[0] in ("tuple", "list", "set") else set()
+    need = {"builtins.object", "typing.Any", "typelib.constants.empty", "inspect.Parameter.empty", "typing.Callable", "builtins.Ellipsis"}
+    rep.check(need <= names, "R17.8", f"{C.INSP}._UNRESOLVABLE", insp.relpath, "covers object, Any, the empty sentinels, Callable and Ellipsis", f"_UNRESOLVABLE lacks {sorted(need - names)}", detail="table")
+    # optional detection over all members (shared with R08.6)
+    from ..report import Report as _R, absorb
+    from . import c08
+
+    sub = _R("C17", rep.tier)
+    sub.rule("R08.6", "", 0)
+    c08.r08_6(prog, sub)
+    absorb(rep, sub, {"R08.6": "R17.8"})
+
+
 def run(prog: Program, rep: Report, tier: str):
+    rep.rule("R17.8", "special-form predicates are computed from the facts their contracts name", floor=15)
     rep.rule("R17.1", "GENERIC_TYPE_MAP values are concrete instantiable builtins of the key's kind", floor=18)
     rep.rule("R17.2", "typing / collections.abc spellings agree", floor=16)
     rep.rule("R17.3", "class set tested by each class-valued predicate equals its contract base; collection predicates normalise through origin()", floor=30)
@@ -298,6 +378,7 @@ def run(prog: Program, rep: Report, tier: str):
     r17_4(prog, rep, facts)
     r17_5(prog, rep)
     r17_6(prog, rep)
+    r17_8(prog, rep)
     # stability across calls / independence of spelling: memoised accessors must not expose the representation of an
     # annotation that compares equal to a differently spelled one (shared with R12.3, restricted to py/inspection.py)
     from ..report import Report as _R, load_known
